@@ -36,6 +36,7 @@ type mutex struct {
 	// required to make it goroutine safe
 	lock    sync.Mutex
 	m       *concurrency.Mutex
+	session *concurrency.Session
 	timeout time.Duration
 }
 
@@ -71,8 +72,27 @@ func (c *cluster) Mutex(name string) (Mutex, error) {
 		return nil, err
 	}
 
-	return &mutex{
+	// All mutexes of a member are built on its single session, so the mutexes
+	// for the same name share one etcd key. They must share the process-local
+	// lock too, otherwise two of them could be held at the same time:
+	// return the same mutex for the same name.
+	c.mutexesMutex.Lock()
+	defer c.mutexesMutex.Unlock()
+
+	if m, exists := c.mutexes[name]; exists && m.session == session {
+		return m, nil
+	}
+
+	if c.mutexes == nil {
+		c.mutexes = make(map[string]*mutex)
+	}
+
+	m := &mutex{
 		m:       concurrency.NewMutex(session, name),
+		session: session,
 		timeout: c.requestTimeout,
-	}, nil
+	}
+	c.mutexes[name] = m
+
+	return m, nil
 }
